@@ -131,6 +131,13 @@ Proof.
   repeat match goal with |- context [if ?a <? ?b then _ else _] => destruct (Z.ltb_spec a b) end; lia.
 Qed.
 
+
+Lemma civil_from_days_spec n : let '(y, m, d) := civil_from_days n in days_from_civil y m d = n /\ valid_date y m d = true.
+Proof.
+  pose proof (days_from_civil_from_days n) as A. pose proof (civil_from_days_valid n) as B.
+  destruct (civil_from_days n) as [[y m] d]. split; assumption.
+Qed.
+
 (* round trip 2: every valid civil date is the civil date of its day number *)
 Lemma civil_from_days_from_civil y m d : valid_date y m d = true ->
   civil_from_days (days_from_civil y m d) = (y, m, d).
